@@ -17,10 +17,15 @@ WF = 'optiland/wavefront.py'
 KNOWN = {}
 
 
+class StubInterfaceExceeded(Exception):
+    """the code under contract used a part of the optic that the stand-in below does not provide: the contract is undecided"""
+
+
 class _SG:
     """image-space records of the last trace (what SurfaceGroup.x/y/z/L/M/N/opd/intensity return): the
     modular stand-in for the trace, whose own contract is C02"""
-    pass
+    def __getattr__(self, name):
+        raise StubInterfaceExceeded('the wavefront code reads SurfaceGroup.%s, which this modular stand-in does not model' % name)
 
 
 def _stub_optic(c, recs, field_type='object_height', xpl=None, pos_last=None, epd=None, maxfield=(0.0, 0.0)):
@@ -43,7 +48,8 @@ def _stub_optic(c, recs, field_type='object_height', xpl=None, pos_last=None, ep
             return [0.55]
 
     class Opt:
-        pass
+        def __getattr__(self, name):          # only reached for attributes the stand-in does not define
+            raise StubInterfaceExceeded('the wavefront code reads Optic.%s, which this modular stand-in does not model' % name)
     o = Opt()
     o.paraxial, o.fields, o.wavelengths, o.field_type = Par(), Fld(), Wl(), field_type
     o.primary_wavelength = 0.55
@@ -360,6 +366,30 @@ def _bounded(ct, tier, seed):
         o.add_wavelength(0.55, is_primary=True)
         return o
     lenses.append(('singlet with the object immersed in water', _immersed_object))
+
+    def _odd_image_surface(kind):
+        # an image surface that is tilted, or curved and decentred: the ray's end point is where the trace put it (global frame)
+        def mk():
+            from optiland.optic import Optic
+            from optiland.materials import IdealMaterial
+            o = Optic()
+            finite = kind == 'tilted_finite'
+            o.add_surface(index=0, thickness=120.0 if finite else np.inf)
+            o.add_surface(index=1, radius=40.0, thickness=5.0, material=IdealMaterial(n=1.6, k=0), is_stop=True)
+            o.add_surface(index=2, radius=-55.0, thickness=70.0 if finite else 38.0)
+            if kind == 'curved_decentred':
+                o.add_surface(index=3, radius=-60.0, dy=1.5)
+            else:
+                o.add_surface(index=3, rx=0.05)
+            o.set_aperture('EPD', 8.0)
+            o.set_field_type('object_height' if finite else 'angle')
+            for y_ in (0.0, 2.0, 3.0):
+                o.add_field(y=y_)
+            o.add_wavelength(0.55, is_primary=True)
+            return o
+        return mk
+    for kind_ in ('tilted', 'tilted_finite', 'curved_decentred'):
+        lenses.append(('singlet with a %s image surface' % kind_.replace('_', ' and '), _odd_image_surface(kind_)))
     for lname, mk in lenses:
         try:
             L = mk()
